@@ -261,6 +261,30 @@ def search_c10(seed, tier, failures):
                         if v:
                             return {"case": list(c), "history": [list(x) for j, x in enumerate(cs) if j != i],
                                     "violation": v}
+    # thresholds placed around the two statistics of the merged cluster (sparse, incoherent
+    # clusters separate iSIM and radius complement the most)
+    import bblean.similarity as S
+    for _ in range(600 if tier == "quick" else 6000):
+        nfeat = rng.choice([4, 8, 16, 24])
+        old_n = rng.randint(1, 6)
+        dens = rng.choice([0.1, 0.2, 0.4, 0.7])
+        rows = [[1 if rng.random() < dens else 0 for _ in range(nfeat)] for _ in range(old_n + 1)]
+        old = [sum(r[j] for r in rows[:-1]) for j in range(nfeat)]
+        nom = rows[-1]
+        new = np.array([a + b for a, b in zip(old, nom)], dtype=np.uint64)
+        a = float(S.jt_isim_from_sum(new, old_n + 1))
+        b = float(S.jt_isim_radius_compl_from_sum(new, old_n + 1))
+        if a != a or b != b:
+            continue
+        for thr in {(a + b) / 2, float(np.nextafter(a, 2.0)), float(np.nextafter(b, 2.0)), a, b,
+                    float(np.nextafter(a, -1.0)), float(np.nextafter(b, -1.0))}:
+            if not (0.0 <= thr <= 1.0):
+                continue
+            for crit in hist.CRITS:
+                c = (crit, 0.05 if crit in hist.HAS_TOL else None, thr, old, old_n, nom, 1)
+                v = c10_violation(c)
+                if v:
+                    return {"case": list(c), "history": [], "violation": v}
     return None
 
 
